@@ -698,6 +698,7 @@ def c12_corpus(tier, seed):
     """explicit bound modes, and generic parameter lists / where-clauses reproduced in every impl header"""
     reqs = []
     T, U = P('T'), P('U')
+    TU0 = [('type', 'T', None, None), ('type', 'U', None, None)]
     n = [0]
 
     def add(kind, params, variants, traits, **kw):
@@ -739,6 +740,18 @@ def c12_corpus(tier, seed):
                 add('struct', rich, [('S', 'named', fields, False)], traits, hand=hand, where='T: Marker2, U: Iterator<Item = u8>' if mi % 4 == 0 else None, wstyle='trailing' if mi % 8 == 4 else 'plain', **kw)
             else:
                 add('enum', rich, [('A', 'tuple', fields, tr == 'Default'), ('B', 'unit', [], False)], traits, hand=hand, where="U: 'a" if mi % 4 == 1 else None, wstyle='trailing' if mi % 8 == 5 else 'plain', **kw)
+    # explicit modes on types in which no field is delegated to the trait (all ignored / method-handled / given an expression):
+    # `bound(*)` still constrains every type parameter, custom predicates are still added
+    for tr in ['Debug', 'Clone', 'PartialEq', 'Hash', 'Default', 'PartialOrd', 'Ord']:
+        role_a = {'Clone': 'method', 'Default': 'expr'}.get(tr, 'ignore')
+        role_b = {'Default': 'expr'}.get(tr, 'method')
+        hand = {'PartialOrd': ['PartialEq'], 'Ord': ['PartialEq', 'Eq', 'PartialOrd']}.get(tr, [])
+        for mi, mode in enumerate(['*', ('list', 'U: ' + TPATH[tr]), None]):
+            fs = [Field(T, **{tr: role_a}), Field(PH(U), **{tr: role_b})]
+            if mi % 2 == 0:
+                add('struct', TU0, [('S', 'named' if tr < 'H' else 'tuple', fs, False)], [(tr, mode)], hand=hand)
+            else:
+                add('enum', TU0, [('A', 'tuple', fs, tr == 'Default'), ('B', 'unit', [], False)], [(tr, mode)], hand=hand)
     # per-target bounds on Into
     for m in [None, '*', ('list', 'T: ::core::convert::Into<u8>'), ('str', 'T: ::core::convert::Into<u8>, U: ::core::clone::Clone')]:
         add('struct', [('type', 'T', None, None), ('type', 'U', None, None)], [('S', 'named', [Field(T, Into='into'), Field(U)], False)], [('Into', m)])
